@@ -5,6 +5,8 @@ import (
 	"fmt"
 	"math/rand"
 	"sort"
+
+	"github.com/formancehq/ledger/pkg/accounts"
 )
 
 // Universe of the generated histories (kept small: the specification enumerates over it).
@@ -123,6 +125,16 @@ func (g *Gen) Next(step int) Op {
 				}
 			}
 		}
+		if g.R.Intn(6) == 0 {
+			// a posting of an account to itself, placed before a posting that spends from that account: the funds
+			// it "moved" must still be there
+			for _, p := range op.Ps {
+				if p.S != "world" {
+					op.Ps = append([]Posting{{S: p.S, D: p.S, As: p.As, N: p.N, B: p.B}}, op.Ps...)
+					break
+				}
+			}
+		}
 		switch g.R.Intn(4) {
 		case 0:
 			op.Ts = 1 + g.R.Intn(g.MaxNow) // back-dated, equal or future-dated
@@ -133,6 +145,27 @@ func (g *Gen) Next(step int) Op {
 		op.Meta = g.meta()
 		if g.R.Intn(4) == 0 {
 			op.AMeta = map[string]map[string]string{g.pick(GenAccounts[1:]): g.meta()}
+		}
+		if op.Script && g.R.Intn(3) == 0 {
+			// the last destination is passed as an account variable, sometimes padded or malformed: the request
+			// must be refused then, never recorded with an address the validators reject (C28)
+			last := &op.Ps[len(op.Ps)-1]
+			raw := last.D
+			switch g.R.Intn(5) {
+			case 0:
+				raw = last.D + " "
+			case 1:
+				raw = " " + last.D
+			case 2:
+				raw = last.D + "\n"
+			case 3:
+				raw = "or ders"
+			}
+			op.VarD = raw
+			op.VarOK = accounts.ValidateAddress(raw)
+			if op.VarOK {
+				last.D = raw
+			}
 		}
 		if op.Script && g.R.Intn(2) == 0 {
 			// the script sets metadata itself: sometimes a key the request sets too (refused), sometimes account
